@@ -71,6 +71,10 @@ def gen(ctx):
             ("pipe", "(%s | %s) |= (%s)" % (f, gg, u), "%s |= (%s |= (%s))" % (f, gg, u)),
             ("comma", "(%s, %s) |= (%s)" % (f, gg, u), "(%s |= (%s)) | (%s |= (%s))" % (f, u, gg, u)),
             ("empty", "empty |= (%s)" % u, "."),
+            ("del", "del(%s)" % f, "%s |= empty" % f),
+            ("del2", "del(%s, %s)" % (f, gg), "(%s, %s) |= empty" % (f, gg)),
+            ("setpath", "setpath([0]; 9), setpath([\"a\",\"b\"]; 9)", "(getpath([0]) = 9), (getpath([\"a\",\"b\"]) = 9)"),
+            ("delpaths", "delpaths([[0],[1]]), delpaths([[\"a\"]])", "(reduce ([0],[1]) as $p (.; getpath($p) |= empty)), (getpath([\"a\"]) |= empty)"),
             ("id", ". |= (%s)" % u, "first(%s)" % u if False else ". |= (%s)" % u),
             ("assign", "%s = (1, 2)" % f, "(1, 2) as $x | %s |= $x" % f),
             ("arith", "%s += (1, 2)" % f, "(1, 2) as $x | %s |= . + $x" % f),
